@@ -55,6 +55,11 @@ RULE = ('(a) repr_str_multiline on ALL strings over the 12-character alphabet {\
         'global / nonlocal, except-as, match captures, type parameters) put as str / list of lines / FST node / pure AST with '
         'non-NFKC spellings (fraktur, fi-ligature, micro sign, fullwidth; dotted where allowed): stored value = NFKC = what '
         'ast.parse reads from the new source; '
+        'Constant.value / MatchSingleton.value given every primitive type (int, float, complex, str, bytes, None, bool, '
+        'Ellipsis, big int, multi-line str) on u-strings, plain / bytes / numeric / singleton constants in five hosts; every '
+        'slice [s:e] of every list field — AST or identifier elements (Global / Nonlocal names, kwd_attrs) — of 33 statement '
+        'shapes written with non-ASCII identifiers, also after a multi-byte string on the same line and inside a def: cut + put '
+        'back and replace-by-copy, twice, full reparse incl. positions; '
         'read accessors (own_src / own_lines with docstr None / True / False / strict, whole=False, get_docstr, '
         'get_line_comment, copy().src) called in all 24 orders and rotations on ONE unmodified node under rotating '
         'FST.options(docstr=...) defaults, each answer = the answer of a fresh tree under the same effective options; '
@@ -815,7 +820,7 @@ def _struct_case(arg):
         a = f.a
         for name in a._fields:
             v = getattr(a, name, None)
-            if isinstance(v, list) and v and all(isinstance(x, ast.AST) for x in v):
+            if isinstance(v, list) and v and all(isinstance(x, (ast.AST, str)) for x in v) and name != 'type_ignores':
                 lfs.append(([] if f is root else root.child_path(f), name, len(v)))
     rng.shuffle(paths)
     # (1) replace by own copy / pure AST / own source, k times
@@ -861,6 +866,8 @@ def _struct_case(arg):
                 continue
             root = _mk(src)
             f = root.child_from_path(path) if path else root
+            if mode == 'cut-one' and isinstance(getattr(f.a, name)[s], str):
+                continue        # identifier lists (Global.names ...) have no element nodes: slices only
             kind = f.a.__class__.__name__ + '.' + name
             k = rng.randint(1, 2)
             w = {'op': mode, 'src': src, 'path': _ser_path(path), 'field': name, 'start': s, 'stop': e, 'k': k}
@@ -1659,6 +1666,173 @@ def _sweep_identifiers(ctx):
     ctx.notes['identifier_puts_refused'] = refused
 
 
+# ---- primitive value fields written through put(), and slices of every list field on lines with multi-byte text ---------
+
+PRIM_SOURCES = ["u'abc'", "'abc'", 'U"x"', "b'x'", '5', '1.5', '2j', 'None', 'True', '...', "u'a' 'b'", "(u'z')", '"""m\nl"""']
+PRIM_VALUES = [5, 0, 1.5, 2j, 'str', 'q"\'', b'by', None, True, False, ..., 10 ** 20, 'multi\nline', '']
+PRIM_HOSTS = ['x = {}\n', 'f({}, k={})\n', 'é = [{}, 1]\n', 'x = {}.real\n', 'def f(a={}): return {}\n']
+
+
+def _prim_one(host, csrc, val_repr, which):
+    """put a primitive into Constant.value (or MatchSingleton.value); (failure-class, detail) | None"""
+    val = eval(val_repr, {})
+    if host == 'match':
+        src = f'match a:\n    case {csrc}: pass\n'
+        root = _mk(src)
+        node = root.body[0].cases[0].pattern
+    else:
+        src = host.format(*([csrc] * host.count('{}')))
+        root = _mk(src)
+        consts = [f for f in root.walk(True) if isinstance(f.a, ast.Constant) and not _in_fstring(f)]
+        node = consts[which % len(consts)]
+    try:
+        node.put(val, 'value')
+    except Exception as e:
+        nm = type(e).__name__
+        return ('refused', str(e)[:100]) if nm in REFUSALS else ('crash:' + nm, str(e)[:200])
+    d = util.tree_equals_parse(root)
+    if d:
+        return 'tree!=parse', d[:300] + f' new source: {root.src!r}'
+    return None
+
+
+def _sweep_primitives(ctx):
+    n = ref = 0
+    for host in PRIM_HOSTS:
+        for csrc in PRIM_SOURCES:
+            try:
+                ast.parse(host.format(*([csrc] * host.count('{}'))))
+            except SyntaxError:
+                continue
+            for v in PRIM_VALUES:
+                for which in range(host.count('{}')):
+                    n += 1
+                    vr = '...' if v is ... else repr(v)
+                    w = {'op': 'prim', 'host': host, 'const': csrc, 'value': vr, 'which': which}
+                    ctx.count('prim:' + repr(w), True)
+                    r = _prim_one(host, csrc, vr, which)
+                    if r and r[0] == 'refused':
+                        ref += 1
+                    elif r:
+                        ctx.fail(f'C08|put-value|Constant:{type(v).__name__}|{r[0]}',
+                                 f'Constant {csrc} in {host!r} given the value {v!r}: {r[0]}: {r[1]}', w)
+    for csrc in ('None', 'True', 'False'):
+        for v in (None, True, False):
+            n += 1
+            w = {'op': 'prim', 'host': 'match', 'const': csrc, 'value': repr(v), 'which': 0}
+            r = _prim_one('match', csrc, repr(v), 0)
+            if r and r[0] == 'refused':
+                ref += 1
+            elif r:
+                ctx.fail(f'C08|put-value|MatchSingleton:{type(v).__name__}|{r[0]}', f'case {csrc} given {v!r}: {r[0]}: {r[1]}', w)
+    ctx.notes['primitive_puts'] = n
+    ctx.notes['primitive_puts_refused'] = ref
+
+
+SLICE_STMTS = [
+    'global ä, öñandú, ü, z, w', 'nonlocal ä, öñandú, ü, z', 'del ä, b.ü, c[é], z', 'import ä, b.ü as ñ, c',
+    'from m import ä, ü as ñ, c', 'from m import (ä, ü as ñ,\n  c)', "x = [ä, 'é', ü, z]", "x = ä, 'é', ü", "x = {ä, 'é', ü}",
+    'f(ä, *ü, é=ñ, **z)', 'with ä as ü, é as ñ, z: pass', 'ä = ü = z = 1', 'class C(ä, ü, metaclass=é): pass',
+    '@ä\n@ü\n@z\ndef g(): pass', "x = {ä: ü, 'é': z, **w}", 'x = ä < ü <= z != w', 'x = ä and ü and z', 'x = ä | ü | z',
+    'match x:\n    case [ä, ü, *z]: pass', "match x:\n    case {'é': ä, 'ü': 1, **z}: pass", 'match x:\n    case C(ä, ü, é=z, ñ=w): pass',
+    'match x:\n    case ä.b | ü.c | 3: pass', 'def g(ä, ü=1, *é, z, **w): pass', 'x = lambda ä, ü: z',
+    'x = [a for ä in ü if é if z for w in v]', 'try: pass\nexcept ä: pass\nexcept ü: pass\nexcept z: pass',
+    'type T[ä, *ü, **z] = int', "print(ä, 'é', ü, sep='ñ')", "x = f'{ä}é{ü}'", 'assert ä, ü', 'x = ä[ü, é:z, w]',
+    'for ä, ü in é, z: pass', 'x = ä if ü else é',
+]
+
+
+def _slice_programs():
+    out = []
+    for s in SLICE_STMTS:
+        variants = [s + '\n', 'def h():\n' + '\n'.join('    ' + l for l in s.split('\n')) + '\n']
+        if '\n' not in s and not s.startswith(('class', 'def', 'with', 'for', '@', 'try', 'match', 'nonlocal')):
+            variants.append("s = 'éñ'; " + s + '\n')
+        if s.startswith('nonlocal'):
+            variants = ['def o():\n    ä = öñandú = ü = z = 1\n    def h():\n        ' + s + '\n',
+                        "def o():\n    ä = öñandú = ü = z = 1\n    def h():\n        s = 'éñ'; " + s + '\n']
+        for v in variants:
+            try:
+                ast.parse(v)
+            except SyntaxError:
+                continue
+            out.append(v)
+    return out
+
+
+def _slice_case(src):
+    """every slice of every list field (AST or str elements) of every node: cut + put back, and replace by its own copy"""
+    out = []
+    try:
+        root = _mk(src)
+    except Exception:
+        return out
+    d0 = ast.dump(root.a)
+    fields = []
+    for f in root.walk(True):
+        if _in_fstring(f):
+            continue
+        for name in f.a._fields:
+            v = getattr(f.a, name, None)
+            if isinstance(v, list) and v and all(isinstance(x, (ast.AST, str)) for x in v) and name != 'type_ignores':
+                fields.append(([] if f is root else _ser_path(root.child_path(f)), name, len(v), f.a.__class__.__name__))
+    for path, name, n, pkind in fields:
+        if n > 5:
+            continue
+        for s in range(n):
+            for e in range(s + 1, n + 1):
+                for mode in ('cut-slice', 'copy-slice'):
+                    root = _mk(src)
+                    kind = pkind + '.' + name
+                    w = {'op': mode, 'src': src, 'path': path, 'field': name, 'start': s, 'stop': e, 'k': 2}
+                    r = None
+                    stage = 'take'
+                    try:
+                        for _ in range(2):
+                            f = _de_path(root, path) if path else root
+                            stage = 'take'
+                            piece = f.get_slice(s, e, name, cut=(mode == 'cut-slice'))
+                            stage = 'put'
+                            if mode == 'cut-slice':
+                                f.put_slice(piece, s, s, name)
+                            else:
+                                f.put_slice(piece, s, e, name)
+                            d1 = ast.dump(root.a)
+                            if d1 != d0:
+                                kind, fc = _diff_class(d1, d0, kind, src)
+                                r = (fc, util.first_diff(d1, d0) + f' new source: {root.src[:200]!r}')
+                                break
+                            d = util.tree_equals_parse(root)
+                            if d:
+                                if d.startswith('source no longer parses') and root.src.rstrip(' \t\n').endswith('\\'):
+                                    kind, r = 'list-tail', ('eof-backslash', d[:200])
+                                else:
+                                    r = ('tree!=parse', d[:300] + f' new source: {root.src[:200]!r}')
+                                break
+                    except Exception as ex:
+                        nm = type(ex).__name__
+                        r = ('refused', stage + ': ' + str(ex)[:120]) if nm in REFUSALS else \
+                            ('crash:' + nm, stage + ': ' + str(ex)[:200])
+                    out.append((mode, kind, r[0] if r else None, r[1] if r else '', w))
+    return out
+
+
+def _sweep_slices(ctx):
+    n = 0
+    refused = {}
+    for lst in pmap(_slice_case, _slice_programs()):
+        for op, kind, r, detail, w in lst:
+            n += 1
+            ctx.count('sl:' + repr(w), True)
+            if r == 'refused':
+                refused[kind] = refused.get(kind, 0) + 1
+            elif r:
+                ctx.fail(f'C08|{op}|{kind}|{r}',
+                         f'{op} [{w["start"]}:{w["stop"]}] of {kind} on a line with multi-byte text: {r}: {detail}', w)
+    ctx.notes['slice_product_roundtrips'] = n
+    ctx.notes['slice_product_refused'] = refused
+
+
 def _programs(ctx, n, stdlib):
     rng = random.Random(ctx.rng.random())
     return corpus.programs(rng, n, stdlib=stdlib)
@@ -1685,6 +1859,8 @@ def sweep(ctx):
     _timed(ctx, 'blocks', _sweep_blocks, ctx, blks.programs())
     _timed(ctx, 'headers', _sweep_headers, ctx)
     _timed(ctx, 'identifiers', _sweep_identifiers, ctx)
+    _timed(ctx, 'primitives', _sweep_primitives, ctx)
+    _timed(ctx, 'slices', _sweep_slices, ctx)
     docp = [(m, s) for m, s in lp if not m['bytes'] and m['form'].startswith('triple')]
     accp = [(s, lits.target_paths(m)) for m, s in docp] + \
         [(s, [p + [[f_, i]] for p, f_, i, _, _, _ in blks.positions(s)][:4]) for _, s in blks.programs()[::7]]
@@ -1708,6 +1884,8 @@ def search(ctx):
     strs = hint_strs + _fragment_strings(4) + _all_strings(4) + _random_strings(rng, 6000, lo=1, hi=80)
     _sweep_doc(ctx, [], strs[:16000])
     if not ctx.failures:
+        _sweep_primitives(ctx)
+        _sweep_slices(ctx)
         _sweep_identifiers(ctx)
         _sweep_headers(ctx)
     if not ctx.failures:
@@ -1747,6 +1925,11 @@ def replay(ctx, data):
     if op == 'docstr':
         r = _doc_one(w['host'], w['s'])
         if r:
+            ctx.fail('replay', f'{r[0]}: {r[1]}', w)
+        return
+    if op == 'prim':
+        r = _prim_one(w['host'], w['const'], w['value'], w['which'])
+        if r and r[0] != 'refused':
             ctx.fail('replay', f'{r[0]}: {r[1]}', w)
         return
     if op == 'ident':
